@@ -274,6 +274,25 @@ def scenario(idx, classes, edges, statements, methods, defs, abstract=(), shapes
     if style.get("late_reg"):
         o.extend(cls_events)
     o.append("}")
+    # registration objects that come and go at run time (a library loaded, unloaded and loaded again): further records for
+    # classes that are registered already, held in optionals
+    dyn = style.get("dyn", [])
+    for j, st in enumerate(dyn):
+        o.append("static std::optional<yorel::yomm2::use_classes<%s%s>> dynreg%d;" % (", ".join("K%d" % c for c in st), polarg, j))
+    o.append("void load() {")
+    for j, st in enumerate(dyn):
+        o.append("    dynreg%d.emplace();" % j)
+        for i, c in enumerate(st):
+            listed = [b for b in st if b in anc[c]]
+            o.append('    std::printf("{\\"e\\":\\"class\\",\\"p\\":%d,\\"r\\":%d,\\"c\\":%d,\\"bases\\":%s,\\"abs\\":%s}\\n");' %
+                     (pol, idx * 1000 + 500 + 20 * j + i, c, str(listed).replace(" ", ""), "true" if c in abstract else "false"))
+    o.append("}")
+    o.append("void unload() {")
+    for j, st in enumerate(dyn):
+        o.append("    dynreg%d.reset();" % j)
+        for i, c in enumerate(st):
+            o.append('    std::printf("{\\"e\\":\\"unclass\\",\\"p\\":%d,\\"r\\":%d}\\n");' % (pol, idx * 1000 + 500 + 20 * j + i))
+    o.append("}")
     o.append("void tables() {")
     concrete = [c for c in classes if c not in abstract]
     for c in concrete:
@@ -313,6 +332,7 @@ COMMON = r'''
 #include <yorel/yomm2/keywords.hpp>
 #include <string>
 #include <memory>
+#include <optional>
 #include <csignal>
 #include <unistd.h>
 static bool g_via_next = false;
@@ -348,6 +368,22 @@ struct vpol4 : policy::basic_policy<vpol4, kid_rtti<policy::deferred_static_rtti
 struct vpol6 : policy::basic_policy<vpol6, kid_rtti<policy::rtti>, policy::fast_perfect_hash<vpol6>, policy::vptr_vector<vpol6>, policy::vectored_error<vpol6>> {};
 struct vpol5 : policy::basic_policy<vpol5, policy::std_rtti, policy::fast_perfect_hash<vpol5>, policy::vptr_vector<vpol5>, policy::basic_indirect_vptr<vpol5>, policy::vectored_error<vpol5>> {};
 '''
+
+
+def _update_block(pols, staged):
+    o = []
+    for p in pols:
+        if p:
+            o.append("    %s::error = [](const yorel::yomm2::error_type& ev) {" % POLS[p])
+            o.append("        if (auto e = std::get_if<yorel::yomm2::resolution_error>(&ev)) throw *e; };")
+        o.append("    { auto comp = yorel::yomm2::update%s();" % (("<%s>" % POLS[p]) if p else ""))
+        o.append("    std::size_t built = 0; for (auto& m : comp.methods) if (m.arity() > 1) built += m.dispatch_table.size();")
+        o.append('    std::printf("{\\"e\\":\\"update\\",\\"p\\":%d,\\"res\\":\\"ok\\",\\"c\\":0,\\"rep\\":{\\"cells\\":%%zu,\\"concrete_cells\\":%%zu,\\"not_implemented\\":%%zu,"' % p)
+        o.append('                "\\"concrete_not_implemented\\":%zu,\\"ambiguous\\":%zu,\\"concrete_ambiguous\\":%zu,\\"built\\":%zu}}\\n",')
+        o.append("                comp.report.cells, comp.report.concrete_cells, comp.report.not_implemented, comp.report.concrete_not_implemented,")
+        o.append("                comp.report.ambiguous, comp.report.concrete_ambiguous, built);")
+        o.append("    }")
+    return "\n".join(o)
 
 
 def program(name, scenarios, staged=False):
@@ -419,7 +455,15 @@ def program(name, scenarios, staged=False):
         o.append("#endif")
     for sc in scenarios:
         o.append("    g%d::tables();" % sc[0])
+    has_dyn = any((sc[8] if len(sc) > 8 and sc[8] else {}).get("dyn") for sc in scenarios)
+    if has_dyn and not staged:
+        for phase in ("load", "unload", "load"):
+            for sc in scenarios:
+                o.append("    g%d::%s();" % (sc[0], phase))
+            o.append("__UPDATE_BLOCK__")
+            for sc in scenarios:
+                o.append("    g%d::tables();" % sc[0])
     o.append('    std::puts("{\\"e\\":\\"end\\"}");')
     o.append("    return 0;")
     o.append("}")
-    return "\n".join(o)
+    return "\n".join(o).replace("__UPDATE_BLOCK__", _update_block(pols, staged))
